@@ -13,6 +13,7 @@ import Snmp.Lemmas.GlueLemmas
 import Snmp.Model.Agent
 import Snmp.Lemmas.ReencLemmas
 import Snmp.Lemmas.SpecRaw
+import Snmp.Lemmas.SpecPdu
 namespace Snmp.Props.C06
 open Snmp Snmp.Ber
 
@@ -393,5 +394,43 @@ example : let pdu : RawTlv := ⟨.minimal, 162, [2, 1, 1, 2, 1, 0, 2, 1, 0, 48, 
 /- non-vacuity: the re-encoding function on a concrete 127-octet-level message runs to a result -/
 example : Reenc.reencScoped [48, 129, 11, 4, 0, 4, 0, 162, 129, 5, 2, 1, 1, 2, 0] 20 =
     .ok [48, 11, 4, 0, 4, 0, 162, 5, 2, 1, 1, 2, 0] := by rfl
+
+/-- **SNMPv3: the PDU inside the scoped PDU.**  The model of the v3 path hands msgData — taken apart
+    by the library glue into context engine id, context name and the PDU item (`V3Glue.payloadOf`,
+    `C10_payload_plain`) — to the strict RFC reader (`Usm.extractScoped`), while the code reads the PDU
+    through `PDU.decode_raw`.  For EVERY PDU an agent writes (`Glue.WritesPdu`: any admissible length
+    form at every TLV, any bindings, every value one the specification reads as intended) with the
+    standard identifier octets for the binding list and the bindings, both readings give the same
+    record: the x690 mirror + glue (`pduOfTree`) yield class and content `(cls, p)`, and the strict
+    reader finds in the payload exactly `⟨e, nm, ⟨tag, p.requestId, p.errorStatus, p.errorIndex,
+    p.varbinds⟩⟩` — so the results of C04 / C07 / C08 for SNMPv3 are results for the octets on the wire. -/
+theorem C06_v3_pdu_readback (ep : Enc) (cls : String) (p : Ops.PduResp) (h : Glue.WritesPdu ep cls p) (hstd : Glue.StdPdu ep)
+    (e nm : Bytes) (hs : Spec.Small e.length ∧ Spec.Small nm.length ∧ Spec.Small (Glue.rawOf ep).c.length) :
+    (ep.WF ∧ ∃ tr, ep.tree = .ok tr ∧ Glue.pduOfTree tr = some (cls, p)) ∧
+    Spec.readScoped (Ber.tlv 4 e ++ Ber.tlv 4 nm ++ Ber.tlv (Glue.rawOf ep).t (Glue.rawOf ep).c) =
+      some ⟨e, nm, ⟨(Glue.rawOf ep).t, p.requestId, p.errorStatus, p.errorIndex, p.varbinds⟩⟩ := by
+  refine ⟨Glue.writesPdu_read h, ?_⟩
+  have hseq := Spec.readSeq_raw [Reenc.norm 4 e, Reenc.norm 4 nm, Reenc.norm (Glue.rawOf ep).t (Glue.rawOf ep).c] (by
+    intro x hx
+    simp only [List.mem_cons, List.not_mem_nil, or_false] at hx
+    rcases hx with rfl | rfl | rfl
+    · exact Reenc.formOf_ok _ hs.1
+    · exact Reenc.formOf_ok _ hs.2.1
+    · exact Reenc.formOf_ok _ hs.2.2)
+  have hb : rawBytes [Reenc.norm 4 e, Reenc.norm 4 nm, Reenc.norm (Glue.rawOf ep).t (Glue.rawOf ep).c]
+      = Ber.tlv 4 e ++ Ber.tlv 4 nm ++ Ber.tlv (Glue.rawOf ep).t (Glue.rawOf ep).c := by
+    simp [rawBytes, Reenc.norm_bytes, List.append_assoc]
+  rw [hb] at hseq
+  unfold Spec.readScoped
+  simp only [hseq, Reenc.norm, List.map_cons, List.map_nil, Glue.writesPdu_spec h hstd, bind, Option.bind, pure]
+
+/- non-vacuity: a GetResponse with one binding: standard identifier octets, both readings agree -/
+example :
+    let vb := Enc.cons .minimal 48 [.prim .minimal 6 [43, 6, 1, 2, 1, 1, 7, 0], .prim .minimal 2 [72]]
+    let ep := Enc.pdu .minimal 162 [.prim .minimal 2 [1], .prim .minimal 2 [0], .prim .minimal 2 [0], .cons .minimal 48 [vb]]
+    Glue.StdPdu ep ∧ ep.tree = .ok (.seq "GetResponse" [.int "Integer" 1, .int "Integer" 0, .int "Integer" 0,
+      .seq "Sequence" [.seq "Sequence" [.oid [1, 3, 6, 1, 2, 1, 1, 7, 0], .int "Integer" 72]]]) ∧
+    Spec.readPdu 162 (Glue.rawOf ep).c = some ⟨162, 1, 0, 0, [([1, 3, 6, 1, 2, 1, 1, 7, 0], .int 72)]⟩ := by
+  refine ⟨by simp [Glue.StdPdu, Glue.StdBind, Glue.rawOf], by rfl, by rfl⟩
 
 end Snmp.Props.C06
